@@ -23,6 +23,9 @@ func EncodeCidSet(cids *cid.Set) datamodel.Node {
 
 // DecodeCidSet decode a cid set from data for the do-no-send-cids extension
 func DecodeCidSet(data datamodel.Node) (*cid.Set, error) {
+	if data == nil {
+		return nil, errors.New("did not receive a list of CIDs")
+	}
 	if data.Kind() != datamodel.Kind_List {
 		return nil, errors.New("did not receive a list of CIDs")
 	}
